@@ -13,6 +13,7 @@
 """
 from contracts.common import Item
 from contracts import base as BA, streams as S
+from contracts import C10 as K10, C16 as K16
 
 TRUSTED = ['T1 pyvc model of Python (DESIGN 3)', 'T3 copy.deepcopy yields an equal, disjoint tree', 'T4 datapackage.Package / Resource',
            'T16 z3 / cvc5']
@@ -21,7 +22,8 @@ ASSUMPTIONS = ['user callables are deterministic and touch nothing but the row /
                'exercised by the bounded end-to-end run only']
 
 ITEMS = [
-    Item('Flow._chain', BA.sym_flow_chain, [('lazy-vs-stepwise', BA.nat_lazy_vs_stepwise)], BA.B + 'flow.py::Flow._chain'),
+    Item('Flow._chain', BA.sym_flow_chain, [('lazy-vs-stepwise', BA.nat_lazy_vs_stepwise), ('cooperating-steps', BA.nat_cooperating_steps)],
+         BA.B + 'flow.py::Flow._chain'),
     Item('Flow.api', BA.sym_flow_api, [], BA.B + 'flow.py::Flow.results'),
     Item('_process', BA.sym__process, [], BA.B + 'datastream_processor.py::DataStreamProcessor._process'),
     Item('helpers', BA.sym_helpers, [], 'dataflows/helpers/row_processor.py::row_processor.process_row'),
@@ -33,5 +35,10 @@ ITEMS = [
     Item('get_iterator', BA.sym_get_iterator, [], BA.B + 'datastream_processor.py::DataStreamProcessor.get_iterator'),
     Item('get_res', BA.sym_get_res, [], BA.B + 'datastream_processor.py::DataStreamProcessor.get_res'),
     Item('ResourceWrapper', BA.sym_resource_wrapper, [], BA.B + 'resource_wrapper.py::ResourceWrapper.__init__'),
+    # stage contracts the equivalence rests on: a stage that removes a resource reads its rows to the end (the next reader of a
+    # sequential source starts where the previous one stopped), and a stage that adds a resource gives it a descriptor of its own
+    # (R5: no sub-tree shared by two resources, or a later resource-scoped schema edit would rewrite both)
+    Item('delete_resource.drains', K10.sym_delete_resource, [], 'dataflows/processors/delete_resource.py::delete_resource.func'),
+    Item('duplicate.own-descriptor', K16.sym_duplicate_func, [], 'dataflows/processors/duplicate.py::duplicate.func'),
     Item('core-objects', BA.sym_base_objects, [], BA.B + 'datastream.py::DataStream.merge_stats'),
 ]
